@@ -304,7 +304,9 @@ def evaluate__substring(self: XPathFunction, context: ta.ContextType = None) -> 
     item: str = self.get_argument(context, default='', cls=str)
     try:
         start = self.get_argument(context, index=1, required=True)
-        if math.isnan(start) or math.isinf(start) and (start > 0 or len(self) > 2):
+        if isinstance(start, int):
+            pass  # neither NaN nor infinite (and maybe out of the range of float)
+        elif math.isnan(start) or math.isinf(start) and (start > 0 or len(self) > 2):
             return ''
     except TypeError:
         if isinstance(context, XPathSchemaContext):
@@ -317,14 +319,14 @@ def evaluate__substring(self: XPathFunction, context: ta.ContextType = None) -> 
     # The selected characters are those at a position p, counted from one, that
     # satisfies round(start) <= p < round(start) + round(length), where the rounding
     # is the one of fn:round() (round half towards positive infinity).
-    first = 1 if math.isinf(start) else _round_half_up(start)
+    first = 1 if not isinstance(start, int) and math.isinf(start) else _round_half_up(start)
 
     if len(self) == 2:
         return item[max(first - 1, 0):]
     else:
         try:
             length = self.get_argument(context, index=2, required=True)
-            if math.isnan(length) or length <= 0:
+            if not isinstance(length, int) and math.isnan(length) or length <= 0:
                 return ''
         except TypeError:
             if isinstance(context, XPathSchemaContext):
@@ -334,7 +336,7 @@ def evaluate__substring(self: XPathFunction, context: ta.ContextType = None) -> 
         except ValueError as err:
             raise self.error('FORG0001', err) from None
 
-        if math.isinf(length):
+        if not isinstance(length, int) and math.isinf(length):
             return item[max(first - 1, 0):]
         else:
             stop = first - 1 + _round_half_up(length)
@@ -510,8 +512,8 @@ def evaluate__ceiling_and_floor_functions(self: XPathFunction, context: ta.Conte
             raise self.error('FORG0001', err) from None
 
     try:
-        if math.isnan(arg) or math.isinf(arg):
-            assert isinstance(arg, (int, float, decimal.Decimal))
+        if not isinstance(arg, int) and (math.isnan(arg) or math.isinf(arg)):
+            assert isinstance(arg, (float, decimal.Decimal))
             return arg
 
         assert isinstance(arg, (int, float, decimal.Decimal))
